@@ -119,6 +119,11 @@ def run(ctx):
             prog = open(os.path.join(outdir, "progress.txt")).read().split("\n")
         except OSError:
             pass
+        if re.search(r"^(panic|fatal error): ", out, re.M) and len(prog) >= 2 and prog[0] == "probe":
+            fn, msg = crash_site(out)   # died before the first case: during the variant probes
+            ctx.classify([{"kind": "process-death", "case": prog[1],
+                           "detail": f"site={fn} the process died during the variant probes: {msg}"}])
+            break
         crashed = re.search(r"^(panic|fatal error): ", out, re.M) and len(prog) >= 2 and prog[0].isdigit()
         if not crashed:
             ctx.violation("driver-failed", "", out[-1500:], no_input=True)
